@@ -7,15 +7,39 @@
 //! × every buffer length 0..=4N+1 × (vectors) every capacity len..=len+N+1 × sentinel pattern.
 //! Each case is executed once; an erased observation (pointers, lengths, capacities, component
 //! bit patterns, allocator log) is judged by a non-generic oracle.
-mod forms;
+#[path = "forms.rs"]
+mod f0;
+#[path = "forms.rs"]
+mod f1;
+#[path = "forms.rs"]
+mod f2;
+#[path = "forms.rs"]
+mod f3;
+#[path = "forms.rs"]
+mod f4;
+#[path = "forms.rs"]
+mod f5;
+#[path = "forms.rs"]
+mod f6;
+#[path = "forms.rs"]
+mod f7;
+#[path = "forms.rs"]
+mod f8;
+#[path = "forms.rs"]
+mod f9;
+#[path = "forms.rs"]
+mod f10;
+#[path = "forms.rs"]
+mod f11;
 mod kinds;
+mod meta;
 mod miri;
 mod scan;
 mod subjects;
 mod track;
 mod uforms;
 
-use forms::{Fal, FormMeta, Kd, Lens};
+use meta::{Fal, FormMeta, Kd, Lens};
 use kinds::{Obs, Outcome, Owner, P};
 use palette::blend::PreAlpha;
 use palette::Alpha;
@@ -73,7 +97,7 @@ fn selfcheck_u<C: USubject<U>, U: Prim>() -> Result<(), String> {
 }
 
 macro_rules! reg {
-    ($v:ident, $ty:ty, $t:ty, $n:tt, $mode:ident) => {{
+    ($v:ident, $md:ident, $ty:ty, $t:ty, $n:tt, $mode:ident) => {{
         type Cx = $ty;
         push_unique(
             &mut $v,
@@ -85,10 +109,10 @@ macro_rules! reg {
                 n: $n,
                 uint: false,
                 sent_bits: |i, p, g| <$t as Prim>::sent(i, p, g).bits(),
-                run: |f, p| forms::run_core::<Cx, $t, $n>(f, p),
-                run_traits: reg!(@traits $mode, Cx, $t, $n),
-                run_pairs: Some(with_pairs!($n, pairs_runner, pair_fn, Cx, $t, $n)),
-                run_pairs_traits: reg!(@ptraits $mode, Cx, $t, $n),
+                run: |f, p| $md::run_core::<Cx, $t, $n>(f, p),
+                run_traits: reg!(@traits $mode, $md, Cx, $t, $n),
+                run_pairs: Some(with_pairs!($n, pairs_runner, $md, pair_fn, Cx, $t, $n)),
+                run_pairs_traits: reg!(@ptraits $mode, $md, Cx, $t, $n),
                 layout: [
                     core::mem::size_of::<Cx>(),
                     core::mem::align_of::<Cx>(),
@@ -102,10 +126,10 @@ macro_rules! reg {
             },
         );
     }};
-    (@traits core, $C:ty, $t:ty, $n:tt) => { None };
-    (@traits traits, $C:ty, $t:ty, $n:tt) => { Some(|f, p| forms::run_traits::<$C, $t, $n>(f, p)) };
-    (@ptraits core, $C:ty, $t:ty, $n:tt) => { None };
-    (@ptraits traits, $C:ty, $t:ty, $n:tt) => { Some(with_pairs!($n, pairs_runner, pair_trait, $C, $t, $n)) };
+    (@traits core, $md:ident, $C:ty, $t:ty, $n:tt) => { None };
+    (@traits traits, $md:ident, $C:ty, $t:ty, $n:tt) => { Some(|f, p| $md::run_traits::<$C, $t, $n>(f, p)) };
+    (@ptraits core, $md:ident, $C:ty, $t:ty, $n:tt) => { None };
+    (@ptraits traits, $md:ident, $C:ty, $t:ty, $n:tt) => { Some(with_pairs!($n, pairs_runner, $md, pair_trait, $C, $t, $n)) };
 }
 macro_rules! reg_uint {
     ($v:ident, $ty:ty, $u:ty) => {{
@@ -139,10 +163,10 @@ macro_rules! reg_uint {
     }};
 }
 macro_rules! inst {
-    ($v:ident, $n:tt, $n1:tt, $al:ident; plain [$($t:ty),*]; alpha [$($ta:ty),*]; pre [$($tp:ty),*]) => {
-        $( reg!($v, alias::$al<$t>, $t, $n, core); )*
-        $( reg!($v, Alpha<alias::$al<$ta>, $ta>, $ta, $n1, core); )*
-        $( reg!($v, PreAlpha<alias::$al<$tp>>, $tp, $n1, core); )*
+    ($v:ident, $md:ident, $n:tt, $n1:tt, $al:ident; plain [$($t:ty),*]; alpha [$($ta:ty),*]; pre [$($tp:ty),*]) => {
+        $( reg!($v, $md, alias::$al<$t>, $t, $n, core); )*
+        $( reg!($v, $md, Alpha<alias::$al<$ta>, $ta>, $ta, $n1, core); )*
+        $( reg!($v, $md, PreAlpha<alias::$al<$tp>>, $tp, $n1, core); )*
     };
 }
 
@@ -157,58 +181,58 @@ type F32x4 = wide::f32x4;
 pub fn registry() -> Vec<TypeInfo> {
     let mut v: Vec<TypeInfo> = vec![];
     // representative subset that also runs every cast trait × owner (registered first)
-    reg!(v, alias::FSrgb<u8>, u8, 3, traits);
-    reg!(v, alias::FSrgb<f32>, f32, 3, traits);
-    reg!(v, Alpha<alias::FSrgb<u8>, u8>, u8, 4, traits);
-    reg!(v, alias::FHsv<f32>, f32, 3, traits);
-    reg!(v, Alpha<alias::FLab<f64>, f64>, f64, 4, traits);
-    reg!(v, alias::FLuma<u16>, u16, 1, traits);
-    reg!(v, Alpha<alias::FLuma<u8>, u8>, u8, 2, traits);
-    reg!(v, PreAlpha<alias::FLinSrgb<f32>>, f32, 4, traits);
-    reg!(v, alias::PackedRgba<u8, 4>, u8, 4, traits);
-    reg!(v, alias::FCam16Jch<f32>, f32, 3, traits);
-    reg!(v, alias::FOklch<f64>, f64, 3, traits);
-    reg!(v, Alpha<Alpha<alias::FSrgb<u8>, u8>, u8>, u8, 5, traits);
+    reg!(v, f0, alias::FSrgb<u8>, u8, 3, traits);
+    reg!(v, f1, alias::FSrgb<f32>, f32, 3, traits);
+    reg!(v, f2, Alpha<alias::FSrgb<u8>, u8>, u8, 4, traits);
+    reg!(v, f3, alias::FHsv<f32>, f32, 3, traits);
+    reg!(v, f4, Alpha<alias::FLab<f64>, f64>, f64, 4, traits);
+    reg!(v, f5, alias::FLuma<u16>, u16, 1, traits);
+    reg!(v, f6, Alpha<alias::FLuma<u8>, u8>, u8, 2, traits);
+    reg!(v, f7, PreAlpha<alias::FLinSrgb<f32>>, f32, 4, traits);
+    reg!(v, f8, alias::PackedRgba<u8, 4>, u8, 4, traits);
+    reg!(v, f9, alias::FCam16Jch<f32>, f32, 3, traits);
+    reg!(v, f10, alias::FOklch<f64>, f64, 3, traits);
+    reg!(v, f11, Alpha<Alpha<alias::FSrgb<u8>, u8>, u8>, u8, 5, traits);
     // every implementor × component types
-    inst!(v, 3, 4, FSrgb; plain [u8, u16, u32, f32, f64]; alpha [u8, u16, u32, f32, f64]; pre [f32, f64]);
-    inst!(v, 3, 4, FLinSrgb; plain [u8, u16, u32, f32, f64]; alpha [u8, u16, u32, f32, f64]; pre [f32, f64]);
-    inst!(v, 1, 2, FLuma; plain [u8, u16, u32, f32, f64]; alpha [u8, u16, u32, f32, f64]; pre [f32, f64]);
-    inst!(v, 3, 4, FXyz; plain [f32, f64]; alpha [f32, f64]; pre [f32, f64]);
-    inst!(v, 3, 4, FYxy; plain [f32, f64]; alpha [f32]; pre [f32, f64]);
-    inst!(v, 3, 4, FLab; plain [f32, f64]; alpha [f32, f64]; pre [f32, f64]);
-    inst!(v, 3, 4, FLch; plain [f32, f64]; alpha [f32]; pre []);
-    inst!(v, 3, 4, FLuv; plain [f32, f64]; alpha [f32]; pre [f32, f64]);
-    inst!(v, 3, 4, FLchuv; plain [f32, f64]; alpha [f32]; pre []);
-    inst!(v, 3, 4, FHsl; plain [u8, f32, f64]; alpha [f32]; pre []);
-    inst!(v, 3, 4, FHsv; plain [u8, f32, f64]; alpha [u8, f32, f64]; pre []);
-    inst!(v, 3, 4, FHwb; plain [u8, f32, f64]; alpha [f32]; pre []);
-    inst!(v, 3, 4, FHsluv; plain [f32, f64]; alpha [f32]; pre []);
-    inst!(v, 3, 4, FOklab; plain [f32, f64]; alpha [f32]; pre [f32, f64]);
-    inst!(v, 3, 4, FOklch; plain [f32, f64]; alpha [f32]; pre []);
-    inst!(v, 3, 4, FOkhsl; plain [f32, f64]; alpha [f32]; pre []);
-    inst!(v, 3, 4, FOkhsv; plain [f32, f64]; alpha [f32]; pre []);
-    inst!(v, 3, 4, FOkhwb; plain [f32, f64]; alpha [f32]; pre []);
-    inst!(v, 3, 4, FLms; plain [f32, f64]; alpha [f32]; pre [f32, f64]);
-    inst!(v, 3, 4, FCam16Jch; plain [f32, f64]; alpha [f32]; pre []);
-    inst!(v, 3, 4, FCam16Jmh; plain [f32, f64]; alpha [f32]; pre []);
-    inst!(v, 3, 4, FCam16Jsh; plain [f32, f64]; alpha [f32]; pre []);
-    inst!(v, 3, 4, FCam16Qch; plain [f32, f64]; alpha [f32]; pre []);
-    inst!(v, 3, 4, FCam16Qmh; plain [f32, f64]; alpha [f32]; pre []);
-    inst!(v, 3, 4, FCam16Qsh; plain [f32, f64]; alpha [f32]; pre []);
-    inst!(v, 3, 4, FCam16UcsJmh; plain [f32, f64]; alpha [f32]; pre []);
-    inst!(v, 3, 4, FCam16UcsJab; plain [f32, f64]; alpha [f32]; pre [f32, f64]);
+    inst!(v, f0, 3, 4, FSrgb; plain [u8, u16, u32, f32, f64]; alpha [u8, u16, u32, f32, f64]; pre [f32, f64]);
+    inst!(v, f1, 3, 4, FLinSrgb; plain [u8, u16, u32, f32, f64]; alpha [u8, u16, u32, f32, f64]; pre [f32, f64]);
+    inst!(v, f2, 1, 2, FLuma; plain [u8, u16, u32, f32, f64]; alpha [u8, u16, u32, f32, f64]; pre [f32, f64]);
+    inst!(v, f3, 3, 4, FXyz; plain [f32, f64]; alpha [f32, f64]; pre [f32, f64]);
+    inst!(v, f3, 3, 4, FYxy; plain [f32, f64]; alpha [f32]; pre [f32, f64]);
+    inst!(v, f4, 3, 4, FLab; plain [f32, f64]; alpha [f32, f64]; pre [f32, f64]);
+    inst!(v, f4, 3, 4, FLch; plain [f32, f64]; alpha [f32]; pre []);
+    inst!(v, f5, 3, 4, FLuv; plain [f32, f64]; alpha [f32]; pre [f32, f64]);
+    inst!(v, f4, 3, 4, FLchuv; plain [f32, f64]; alpha [f32]; pre []);
+    inst!(v, f5, 3, 4, FHsl; plain [u8, f32, f64]; alpha [f32]; pre []);
+    inst!(v, f6, 3, 4, FHsv; plain [u8, f32, f64]; alpha [u8, f32, f64]; pre []);
+    inst!(v, f5, 3, 4, FHwb; plain [u8, f32, f64]; alpha [f32]; pre []);
+    inst!(v, f6, 3, 4, FHsluv; plain [f32, f64]; alpha [f32]; pre []);
+    inst!(v, f7, 3, 4, FOklab; plain [f32, f64]; alpha [f32]; pre [f32, f64]);
+    inst!(v, f6, 3, 4, FOklch; plain [f32, f64]; alpha [f32]; pre []);
+    inst!(v, f7, 3, 4, FOkhsl; plain [f32, f64]; alpha [f32]; pre []);
+    inst!(v, f7, 3, 4, FOkhsv; plain [f32, f64]; alpha [f32]; pre []);
+    inst!(v, f7, 3, 4, FOkhwb; plain [f32, f64]; alpha [f32]; pre []);
+    inst!(v, f8, 3, 4, FLms; plain [f32, f64]; alpha [f32]; pre [f32, f64]);
+    inst!(v, f8, 3, 4, FCam16Jch; plain [f32, f64]; alpha [f32]; pre []);
+    inst!(v, f8, 3, 4, FCam16Jmh; plain [f32, f64]; alpha [f32]; pre []);
+    inst!(v, f8, 3, 4, FCam16Jsh; plain [f32, f64]; alpha [f32]; pre []);
+    inst!(v, f9, 3, 4, FCam16Qch; plain [f32, f64]; alpha [f32]; pre []);
+    inst!(v, f9, 3, 4, FCam16Qmh; plain [f32, f64]; alpha [f32]; pre []);
+    inst!(v, f9, 3, 4, FCam16Qsh; plain [f32, f64]; alpha [f32]; pre []);
+    inst!(v, f9, 3, 4, FCam16UcsJmh; plain [f32, f64]; alpha [f32]; pre []);
+    inst!(v, f10, 3, 4, FCam16UcsJab; plain [f32, f64]; alpha [f32]; pre [f32, f64]);
     // nested wrappers, Packed arrays, a SIMD component type (16-byte alignment)
-    reg!(v, Alpha<PreAlpha<alias::FLinSrgb<f32>>, f32>, f32, 5, core);
-    reg!(v, alias::PackedAbgr<u8, 4>, u8, 4, core);
-    reg!(v, alias::PackedRgba<u8, 3>, u8, 3, core);
-    reg!(v, alias::PackedRgba<u8, 1>, u8, 1, core);
-    reg!(v, alias::PackedRgba<u16, 4>, u16, 4, core);
-    reg!(v, alias::PackedRgba<u32, 2>, u32, 2, core);
-    reg!(v, alias::PackedRgba<f32, 3>, f32, 3, core);
-    reg!(v, alias::PackedRgba<f64, 5>, f64, 5, core);
-    reg!(v, alias::FSrgb<F32x4>, F32x4, 3, core);
-    reg!(v, Alpha<alias::FSrgb<F32x4>, F32x4>, F32x4, 4, core);
-    reg!(v, PreAlpha<alias::FLinSrgb<F32x4>>, F32x4, 4, core);
+    reg!(v, f10, Alpha<PreAlpha<alias::FLinSrgb<f32>>, f32>, f32, 5, core);
+    reg!(v, f11, alias::PackedAbgr<u8, 4>, u8, 4, core);
+    reg!(v, f10, alias::PackedRgba<u8, 3>, u8, 3, core);
+    reg!(v, f11, alias::PackedRgba<u8, 1>, u8, 1, core);
+    reg!(v, f10, alias::PackedRgba<u16, 4>, u16, 4, core);
+    reg!(v, f11, alias::PackedRgba<u32, 2>, u32, 2, core);
+    reg!(v, f10, alias::PackedRgba<f32, 3>, f32, 3, core);
+    reg!(v, f11, alias::PackedRgba<f64, 5>, f64, 5, core);
+    reg!(v, f10, alias::FSrgb<F32x4>, F32x4, 3, core);
+    reg!(v, f11, Alpha<alias::FSrgb<F32x4>, F32x4>, F32x4, 4, core);
+    reg!(v, f10, PreAlpha<alias::FLinSrgb<F32x4>>, F32x4, 4, core);
     // UintCast
     reg_uint!(v, alias::LumaU<u8>, u8);
     reg_uint!(v, alias::LumaU<u16>, u16);
@@ -251,10 +275,11 @@ pub fn shapes(t: &TypeInfo, fm: &FormMeta, owner: Owner, b: &Bounds, mut f: impl
         (Lens::Exact1, _) => (0..=2 * n + 1).collect(),
         (Lens::Buf, Owner::Value) => (0..=3).collect(),
         (Lens::Buf, Owner::Array) => (0..=if fm.ik == Kd::T && !t.uint { 9 } else { 3 }).collect(),
-        (Lens::Buf, _) => (0..=b.len_mul * n + b.len_add).collect(),
+        // at most 128 components per buffer, so that all sentinels stay distinct even for u8
+        (Lens::Buf, _) => (0..=(b.len_mul * n + b.len_add).min(if fm.ik == Kd::T { 128 } else { 128 / n })).collect(),
     };
     if fm.lens == Lens::Pairs {
-        for &(k, m) in forms::pairs_for(n) {
+        for &(k, m) in meta::pairs_for(n) {
             for &pat in b.pats {
                 f(P { len: k, cap: m, pat, owner });
             }
@@ -286,10 +311,10 @@ pub fn tables(t: &TypeInfo) -> Vec<(u8, &'static [FormMeta])> {
     if t.uint {
         vec![(0, uforms::UINT_FORMS)]
     } else {
-        let mut v: Vec<(u8, &'static [FormMeta])> = vec![(0, forms::CORE_FORMS)];
+        let mut v: Vec<(u8, &'static [FormMeta])> = vec![(0, meta::CORE_FORMS)];
         if t.run_traits.is_some() {
-            v.push((1, forms::TRAIT_FORMS));
-            v.push((2, forms::TRAIT_PAIR_FORMS));
+            v.push((1, meta::TRAIT_FORMS));
+            v.push((2, meta::TRAIT_PAIR_FORMS));
         }
         v
     }
@@ -602,6 +627,18 @@ fn explore_type(ctx: &Ctx, ti: usize, t: &TypeInfo, b: &Bounds) -> ChunkOut {
     let mut ran: Vec<String> = vec![];
     // layout + oracle self-check, once per instantiation
     if ctx.wants("layout") {
+        // sentinels: 128 distinct values per palette and generation, generations disjoint
+        for pat in [0u8, 2] {
+            let mut seen = BTreeSet::new();
+            for gen in [0u8, 1] {
+                for i in 0..128 {
+                    if !seen.insert((t.sent_bits)(i, pat, gen)) {
+                        eprintln!("MACHINERY-FAILURE: sentinel collision for {} idx {i} pat {pat} gen {gen}", t.item);
+                        std::process::exit(3);
+                    }
+                }
+            }
+        }
         let l = t.layout;
         let ok = l[0] == l[2] && l[1] == l[3] && l[0] == t.n * l[4] && l[1] == l[5];
         c.add("layout", 1, 1, 1, 1);
@@ -760,9 +797,9 @@ fn real_main() -> i32 {
     let n_tr = types.iter().filter(|t| t.run_traits.is_some()).count();
     let n_u = types.iter().filter(|t| t.uint).count();
     for (sub, what) in [
-        ("fn", format!("{n_arr} ArrayCast instantiations × all {} free functions of palette::cast (by value, &, &mut, [C;K] K=0..=3, component arrays for literal (K,M) pairs incl. mismatches, slices, boxed slices, vectors, map_*_in_place) × {lens} × {caps} × 2 sentinel palettes", forms::CORE_FORMS.iter().filter(|f| f.name.starts_with("fn/")).count())),
+        ("fn", format!("{n_arr} ArrayCast instantiations × all {} free functions of palette::cast (by value, &, &mut, [C;K] K=0..=3, component arrays for literal (K,M) pairs incl. mismatches, slices, boxed slices, vectors, map_*_in_place) × {lens} × {caps} × 2 sentinel palettes", meta::CORE_FORMS.iter().filter(|f| f.name.starts_with("fn/")).count())),
         ("rt", format!("{n_arr} instantiations × round trips (value, &mut slice, Box<[C]>, Vec<C> through arrays and components; Vec<T> through try_from_component_vec and back) × {lens} × {caps}")),
-        ("std", format!("{n_arr} instantiations × the {} AsRef/AsMut/From/TryFrom/Box conversions generated by impl_array_casts! (single-colour TryFrom<&[T]>: every length 0..=2N+1)", forms::CORE_FORMS.iter().filter(|f| f.name.starts_with("std/")).count())),
+        ("std", format!("{n_arr} instantiations × the {} AsRef/AsMut/From/TryFrom/Box conversions generated by impl_array_casts! (single-colour TryFrom<&[T]>: every length 0..=2N+1)", meta::CORE_FORMS.iter().filter(|f| f.name.starts_with("std/")).count())),
         ("trait", format!("{n_tr} representative instantiations × every cast trait method of the 5 ArrayCast trait files × owners ([_], [_;K] K=0..=3 resp. 0..=9 components, Box<[_]>, Vec<_>, by value) × {lens} × {caps}")),
         ("uint-fn", format!("{n_u} UintCast instantiations (Luma<S,uN>, Packed<O,uN>, N=8..128) × all free functions × {lens} × {caps}")),
         ("uint-rt", "UintCast round trips through Box and Vec".to_string()),
